@@ -22,3 +22,5 @@ def run(prog, rep):
     _rkx.run_handles_only(prog, rep)
     from ..rules import r_io as _rio7
     _rio7.run_swapped(prog, rep)
+    from ..rules import r_pair as _rpp
+    _rpp.run_pos_pass(prog, rep)
